@@ -27,6 +27,15 @@ GEN_NOTE = ("Trusted: Coq kernel; stdlib real-number axioms (sig_forall_dec, sig
             "the SX->Coq translator extract/sx2coq.py with the opcode semantics of coq/Base/Ops.v (exact reals, not IEEE doubles), re-validated each run by extract/roundtrip.py; "
             "CasADi evaluating the instruction list the translator walks. The model is regenerated from /repo's working tree on every run. ")
 
+LIE_STEMS = ["SO2", "SE2", "Rn", "so3", "SO3Quat", "SO3Mrp", "SO3Dcm", "SO3Euler", "se3", "SE3Quat", "SE3Mrp", "se23", "SE23Quat", "SE23Mrp", "DP"]
+
+prop("C01", stems=["SO2", "SE2", "Rn", "SO3Quat", "SO3Mrp", "SO3Dcm", "SO3Euler", "SE3Quat", "SE3Mrp", "SE23Quat", "SE23Mrp", "DP"],
+     props=["Props/C01.v"], falsify="falsify_C01",
+     level_text="Kernel-checked theorems on the regenerated model: matrix homomorphism, two-sided inverse, identity, associativity for SO2, SE2, R2, R3, SO3 quaternion/MRP/DCM, SE3 and SE_2(3) with quaternion and MRP rotation parts (via a generic semidirect-product theorem over an abstract SO(3) representation); matrix->element conversions are right inverses for SO2, SE2, quaternion (all four Shepperd branches, for every proper rotation matrix), MRP and DCM. Partial: Euler-angle group (3-2-1) and direct products are covered by the numeric search only in this snapshot; DCM product closure (orthonormality of a product) is not proved.",
+     level_note=GEN_NOTE + "MRP statements carry the guard 1+|a|^2|b|^2-2a.b <> 0 (the 360-degree singularity). Python glue (operators, beartype, exceptions) is exercised by harness/falsify_C01.py only.",
+     technique="Coq proof (ring/field/lra/nsatz + hand lemmas on sqrt/atan) over a model regenerated from source by a translator",
+     explanation="group laws as matrix identities for all valid parameter vectors")
+
 prop("C16", stems=["Quadrotor"], props=["Props/C16.v"], falsify="falsify_C16",
      level_text="Kernel-checked theorems over the regenerated real-number model of quadrotor.derive_model(): q.qdot=0, quaternion and position kinematics, hover equilibrium, free-fall accelerometer, rotor-sum wrench (Euler and Newton equations), motor first-order law, translation and yaw equivariance, for ALL states, inputs and parameter vectors (parameters are symbolic). Not proved: the exponential closed-form motor response (only the ODE right-hand side), drag-on branch of the force sum.",
      level_note=GEN_NOTE + "Numeric search on the real functions (harness/falsify_C16.py) supports replay generation only.",
